@@ -38,14 +38,16 @@ structure Cfg where
   maxCores   : Option Nat := none   -- per-call mode limits
   maxWorkers : Option Nat := none
   execCores  : Nat := 1             -- executor-level cores per worker
+  execThreads : Nat := 1            -- executor-level threads_per_core handed to the workers (1 on the local back end)
   calls      : List CallSpec
   deriving Repr, DecidableEq
 
-/-- `_submit_function_to_separate_process`: effective cores (1 means "unset") × per-call threads. -/
+/-- `_submit_function_to_separate_process`: effective cores (1 means "unset") × effective threads
+    (the per-call `threads_per_core`, else the executor-level one: fix 8703212). -/
 def slotsOf (cfg : Cfg) (c : CallSpec) : Nat :=
   (match c.cores with
     | none => cfg.execCores
-    | some k => if k = 1 ∧ cfg.execCores ≥ 1 then cfg.execCores else k) * c.threads.getD 1
+    | some k => if k = 1 ∧ cfg.execCores ≥ 1 then cfg.execCores else k) * c.threads.getD cfg.execThreads
 
 /-- `ExecutorBase.submit` (code after fixes 06d6e8a, 472d455): without block allocation a request
     of more than `max_cores` slots — the slots `_submit_function_to_separate_process` will account
